@@ -109,10 +109,17 @@ def forbidden_words(group_dirs):
 
 
 def load_known():
+    """known_findings.json plus the per-property fragments known_findings.d/*.json (committed, read-only)."""
+    out = []
     p = os.path.join(VERIF, "known_findings.json")
-    if not os.path.exists(p):
-        return []
-    return json.load(open(p)).get("findings", [])
+    if os.path.exists(p):
+        out.extend(json.load(open(p)).get("findings", []))
+    d = os.path.join(VERIF, "known_findings.d")
+    if os.path.isdir(d):
+        for fn in sorted(os.listdir(d)):
+            if fn.endswith(".json"):
+                out.extend(json.load(open(os.path.join(d, fn))).get("findings", []))
+    return out
 
 
 class Ctx:
